@@ -96,6 +96,7 @@ Step ==
        ELSE IF op = "hcf" THEN halted' = TRUE /\ UNCHANGED <<tid, verdict, pc, ra, sp, mem, sh, fl>>
        \* ---- the monitor (same rules as IC10Core!Monitor) ----
        ELSE IF HasF(i, "ent") /\ i.ent /\ fl THEN Sink("FALLTHROUGH")
+       ELSE IF op = "j" /\ ~HasF(i, "cal") /\ ~HasF(i, "tc") /\ t < Len(P) /\ HasF(P[t + 1], "ent") /\ P[t + 1].ent THEN Sink("ENTERED_WITHOUT_CALL")
        ELSE IF HasF(i, "cal") /\ ~seq THEN
             /\ sh' = Append(sh, <<pc + 1, sp - (IF i.cal.pp THEN i.cal.ar ELSE 0)>>)
             /\ pc' = t /\ ra' = ra2 /\ sp' = sp1 /\ mem' = mem2 /\ fl' = FALSE /\ UNCHANGED <<tid, verdict, halted>>
